@@ -6,6 +6,15 @@ complete programs together with their (deterministic) execution history `ev`.  T
 property on every state; every leaf (quick: a sample) is replayed on the real library by
 harness/corosched_replay.cpp, which runs the whole program in one go and must reproduce the history
 event for event, including the content of the ready deque and the coroutine-mode flag at each event.
+
+quick   : nine configurations (<= 3-4 coroutines x <= 2 steps + forced return, each exhaustive in TLC),
+          up to 3000 programs per configuration replayed (those in which order matters first).
+thorough: the same with every program replayed under ASan/UBSan, 3-step variants replayed where the
+          graph is small and model-checked only where it is big (up to 3*10^6 states), plus random
+          programs of 4-5 coroutines x 5 steps from TLC -simulate, each of them replayed as well.
+Invariants (cfg files): RunToSuspension, QueueFIFO + FIFOStep + ObservedOrder, ResumeOncePerReadying,
+NoReentrancy, RoundRobin, FullDrain, CoroMode (+ TypeOK, AllDoneAtEnd for the program generator).
+Binding self-test: tools/mutest.sh C05 quick <mutation.py>.
 """
 import json
 import os
@@ -16,12 +25,10 @@ from framework import parse_replay_output, scenario_text
 from vlib import MachineryError, log
 
 SPEC = "CoroSched"
-INVARIANTS = ["TypeOK", "CoroMode", "RunToSuspension", "QueueFIFO", "ObservedOrder", "ResumeOncePerReadying",
-              "NoReentrancy", "RoundRobin", "FullDrain", "AllDoneAtEnd"]
 TLC_WORKERS = 4
 ALL_CONFIGS = ("resolve", "fanout", "spawn", "bound", "park", "mutex", "queue", "mixed", "nested")
 # an event <<c, i, kind, <<x, y, ...>>, mode>> whose deque snapshot holds at least two coroutines
-RICH_RE = re.compile(r'<<\d+, \d+, "[bsef]", <<\d+, \d+')
+RICH_RE = re.compile(r'<<\d+, \d+, "[bsefr]", <<\d+, \d+')
 
 # cfg file -> actions that must have fired (vacuity guard; "entered from normal code" = Nat*,
 # "from inside another coroutine" = Spawn*)
